@@ -264,10 +264,10 @@ where
                 let found = match self.resume_incomplete_search(pos, is_new) {
                     Ok(found) => found,
                     Err(e) => {
-                        if rset.buf_positions.is_empty() {
+                        if rset.buf_positions.is_empty() || !e.is_format_error() {
                             return Some(Err(e));
                         }
-                        // return the records preceding the failing one first
+                        // return the records preceding the invalid one first
                         self.retry_record();
                         break;
                     }
@@ -285,10 +285,10 @@ where
                 let found = match self.search() {
                     Ok(found) => found,
                     Err(e) => {
-                        if rset.buf_positions.is_empty() {
+                        if rset.buf_positions.is_empty() || !e.is_format_error() {
                             return Some(Err(e));
                         }
-                        // return the records preceding the failing one first
+                        // return the records preceding the invalid one first
                         self.retry_record();
                         break;
                     }
@@ -325,8 +325,8 @@ where
         Some(Ok(()))
     }
 
-    // After an error, makes the next call search the current record again
-    // (and thus return the same error), the buffer still holds it
+    // After a format error, makes the next call search the current record
+    // again (and thus return the same error), the buffer still holds it
     fn retry_record(&mut self) {
         self.incomplete_pos = None;
         self.state = State::Positioned;
@@ -871,6 +871,14 @@ impl From<io::Error> for Error {
     #[inline]
     fn from(e: io::Error) -> Error {
         Error::Io(e)
+    }
+}
+
+impl Error {
+    // true for errors caused by the content of the input (which are found
+    // again if the same record is parsed again), false for Io / BufferLimit
+    fn is_format_error(&self) -> bool {
+        !matches!(*self, Error::Io(_) | Error::BufferLimit)
     }
 }
 
